@@ -91,6 +91,25 @@ func checkC12(c c12Case) string {
 				return "Order: " + m
 			}
 		}
+		// the caller then edits the list it owns through the public fields (same number of cues: boundaries exchanged,
+		// two cues swapped) and orders it again
+		if n := len(a.Items); n >= 2 {
+			a.Items[0].StartAt, a.Items[n-1].StartAt = a.Items[n-1].StartAt+time.Millisecond, a.Items[0].StartAt
+			a.Items[0].EndAt, a.Items[n-1].EndAt = a.Items[n-1].EndAt+time.Millisecond, a.Items[0].EndAt
+			a.Items[0], a.Items[n/2] = a.Items[n/2], a.Items[0]
+			edited := append([]*astisub.Item(nil), a.Items...)
+			want := append([]*astisub.Item(nil), a.Items...)
+			sort.SliceStable(want, func(x, y int) bool { return want[x].StartAt < want[y].StartAt })
+			a.Order()
+			if len(a.Items) != n {
+				return "second Order changed the number of cues"
+			}
+			for k := range want {
+				if a.Items[k] != want[k] {
+					return fmt.Sprintf("Order after the caller edited the list in place: position %d holds another cue than the stable sort; before: %s after: %s", k, fmtItems(edited), fmtItems(a.Items))
+				}
+			}
+		}
 		return ""
 	}
 	b, bItems := mkSide(c.B, c.BStyles, c.BRegions, c.BareArgument, "B")
